@@ -265,7 +265,78 @@ def c02(ctx):
     ctx.exhaustive = True
 
 
+def c10(ctx):
+    binary = build()
+    # (1) the ownership model: the rebuilt clone satisfies all invariants ...
+    mc = Bg(lambda: model_check(ctx, "MC_Mem", workers=4, timeout=900))
+    # ... and the model is able to fail: a verbatim copy of the pointer table (derive(Clone)) is refuted
+    out = tlc(ctx, "MC_Mem", cfg="MC_Mem_derived", workers=2, timeout=600, tag="MC_Mem_derived")
+    if "Invariant SelfContained is violated" not in out and "Invariant NoUseAfterFree is violated" not in out:
+        raise ToolError("the ownership model no longer refutes the derived clone: the invariants are vacuous\n" + out[-1500:])
+    ctx.notes.append("TermIndexMem with CloneMode=derived is refuted by TLC (SelfContained), CloneMode=rebuild satisfies all invariants")
+    # (2) every transition of the model -> histories
+    out = tlc(ctx, "Gen_Mem", workers=1, timeout=900)
+    tlc_must_be_clean(out, "Gen_Mem")
+    edges = tour.read_edges(out)
+    if len(edges) < 10000:
+        raise ToolError("Gen_Mem printed only %d transitions" % len(edges))
+
+    def lab(e):
+        return {k: e[k] for k in ("op", "x", "y", "t") if k in e}
+    hists, st = tour.tours(edges, max_len=40, label=lab)
+    if st["uncovered"]:
+        raise ToolError("transition tour left %d edges uncovered" % st["uncovered"])
+    ctx.notes.append("Gen_Mem: %d transitions of %d states covered by %d histories (%d steps)" % (st["edges"], st["states"], st["histories"], st["steps"]))
+    if ctx.quick():
+        hists = [x for i, x in enumerate(hists) if (i + ctx.seed) % 100 == 0]
+    else:
+        hists = [x for i, x in enumerate(hists) if (i + ctx.seed) % 4 == 0]
+    genf = os.path.join(ctx.gen, "mem_hist.ndjson")
+    with open(genf, "w") as f:
+        for x in hists:
+            f.write(json.dumps(x) + "\n")
+    tr = os.path.join(ctx.traces, "mem.ndjson")
+    nh, ln = (25, 40) if ctx.quick() else (400, 60)
+    sv(binary, ["mem", "--gen", genf, "--seed", ctx.seed, "--hist", nh, "--len", ln, "--out", tr])
+    trace = read_trace(tr)
+    mism = trace_check(ctx, "Trace_Mem", tr)
+    seg, segs, impl_of = 0, [], []
+    impl = "?"
+    for e in trace:
+        if e["ev"] == "Reset":
+            seg += 1
+            impl = e["impl"]
+        segs.append(seg)
+        impl_of.append(impl)
+    bad = set()
+    for line, fields in mism:
+        e = trace[line - 1]
+        if segs[line - 1] in bad:
+            continue            # only the first unexplained observation of a history is reported (the rest follows from it)
+        bad.add(segs[line - 1])
+        # history prefix that leads to the first unexplained observation of this history
+        start = line - 1
+        while trace[start]["ev"] != "Reset":
+            start -= 1
+        prefix = [{k: v for k, v in x.items() if k != "obs"} for x in trace[start:line]]
+        ctx.violations.append({"key": "%s/%s/%s" % (impl_of[line - 1], fields[0], e["ev"]), "detail": "%s after %s on %s: %s (trace line %d)" % (fields[0], e["ev"], impl_of[line - 1], json.dumps(e.get("obs"))[:200], line),
+                               "event": e, "history": prefix if len(prefix) < 60 else prefix[-60:], "trace": tr, "line": line})
+    ctx.traces_validated += seg - len(bad)
+    for e in trace:
+        if e["ev"] in ("Clone", "Drop", "Swap", "Move", "Grow"):
+            ctx.distinct.add(h([e["ev"], e["obs"]]))
+    ctx.samples += [[{k: v for k, v in x.items() if k != "obs"} for x in trace[1:8]]]
+    mc.join()
+    ctx.rule = ("MC_Mem: ownership model (2 terms, 3 instances, 6 heap cells) - rebuilt clone satisfies SelfContained/NoDangling/NoUseAfterFree/Bijection on all 17,787 states, verbatim clone refuted; "
+                "Gen_Mem: transitions of that model (new/ensure/clone/drop/swap/move/read) sampled 1/%d into histories replayed on SimpleTermIndex<u16|u32> and the 8 in-memory stores with three term pools (incl. owned quoted triples); "
+                "%d random histories x %d ops per implementation with growth across reallocation thresholds; after EVERY step every live instance is audited through the verif_hooks accessors and read only if the audit passes. "
+                "distinct = distinct (op, observation) pairs of ownership-changing ops" % (100 if ctx.quick() else 4, nh, ln))
+    ctx.assumptions += ["the audit compares pointer ranges and never dereferences foreign memory, so it does not itself commit the undefined behaviour it looks for",
+                        "undefined behaviour outside the self-referential term index (std collections) is out of scope"]
+
+
 FAMILIES = {
+    "C10": c10,
     "C02": c02,
     "C15": c15,
     "C11": c11,
